@@ -70,6 +70,9 @@ def run(ctx):
             return isinstance(a, ast.Name) or (isinstance(a, ast.Call) and isinstance(a.func, ast.Attribute) and a.func.attr == "keys" and not a.args)
         return False
     _common.account_returns(fi, _ascending_keys)
+    # (leaving the selection loop early selects fewer points: every clause of this property still holds for what was selected;
+    # Z7 reads the breaks for termination)
+    _common.account_loop_exits(fi)
     for r_ in [n_ for n_ in ast.walk(fi.node) if isinstance(n_, ast.Return) and getattr(n_, "lineno", 0) > main.lineno]:
         for c_ in ast.walk(r_):
             if isinstance(c_, ast.Call) and isinstance(c_.func, ast.Name) and c_.func.id == "sorted" \
